@@ -23,6 +23,25 @@ IDENTITY_CALLS = (
 )
 
 
+PURE_LAST = {
+    "eq", "ne", "lt", "le", "gt", "ge", "cmp", "partial_cmp", "is_empty", "len", "starts_with", "ends_with",
+    "contains", "is_match", "re_contains", "is_some", "is_none", "is_ok", "is_err", "trim", "trim_start",
+    "trim_end", "chars", "count", "as_bytes", "not", "contains_key", "get", "first", "last", "index",
+    "unwrap", "expect", "as_str", "deref", "clone", "to_string", "to_owned", "borrow", "as_ref", "into", "from",
+    "as_mut_str", "deref_mut", "to_str", "as_slice", "as_mut_slice", "as_c_str", "display", "exists", "is_dir",
+    "is_file", "captures", "find", "new_display", "new_debug", "parse", "is_alias", "is_builtin", "is_env",
+    "is_arithmetic", "has_here_string", "has_redirect_from", "is_single_and_builtin", "with_pipeline",
+    "is_login", "is_script", "is_command_string", "is_non_tty", "env_in_token", "needs_globbing",
+    "need_expand_brace", "should_do_dollar_command_extension", "is_args_in_token", "basename",
+    "all_members_stopped", "all_members_running", "is_exited", "is_stopped", "is_continued", "is_signaled",
+    "is_error", "is_others", "get_pid", "get_status", "get_signal", "get_errno", "is_signal_handler_enabled",
+}
+
+
+def is_pure_callee(path):
+    return last_seg(path) in PURE_LAST
+
+
 def _strip_angles(s):
     out = []
     d = 0
@@ -149,6 +168,13 @@ class Body:
         if k == "switch":
             # constant condition: prune
             c = self.const_of_operand(t["op"])
+            if c is None:
+                try:
+                    ce = self.operand_expr(t["op"])
+                    if ce[0] == "const" and isinstance(ce[1], (int, bool)):
+                        c = ce[1]
+                except RecursionError:
+                    c = None
             if c is not None and isinstance(c, (int, bool)):
                 v = int(c)
                 for val, tgt in t["targets"]:
@@ -491,6 +517,21 @@ class Body:
                 e = ("subslice", tuple(p["subslice"]), e)
         return e
 
+    def expand_vars(self, e, depth=0):
+        """replace single-definition named variables by their defining expression (for matching only)"""
+        if not isinstance(e, tuple) or not e or depth > 8:
+            return e
+        if e[0] == "var":
+            defs = self.defs.get(e[1], [])
+            if len(defs) == 1 and not self.is_param(e[1]):
+                return self.expand_vars(strip_sites(self.def_expr(defs[0][0], defs[0][1])), depth + 1)
+            return e
+        if e[0] in ("const", "param", "tmp", "capture"):
+            return e
+        return tuple(self.expand_vars(x, depth) if isinstance(x, tuple) and x and isinstance(x[0], str)
+                     else (tuple(self.expand_vars(y, depth) for y in x) if isinstance(x, tuple) else x)
+                     for x in e)
+
     # ------------------------------------------------------------- atoms
     def switch_edges(self, bb):
         """For a switch terminator: list of (succ, atom, value) ; atom is a
@@ -501,7 +542,8 @@ class Body:
         if t["k"] != "switch":
             return []
         e = self.operand_expr(t["op"])
-        return self._switch_edges_expr(t, e)
+        live = set(self.succs[bb])
+        return [x for x in self._switch_edges_expr(t, e) if x[0] in live]
 
     def _switch_edges_expr(self, t, e):
         out = []
@@ -639,9 +681,12 @@ def strip_sites(e):
     if not e:
         return e
     if e[0] == "call":
+        if len(e) > 3 and not is_pure_callee(e[1]):
+            # a call that may yield a different value each time it runs keeps its site identity
+            return ("call", e[1], tuple(strip_sites(a) for a in e[2]), e[3])
         return ("call", e[1], tuple(strip_sites(a) for a in e[2]))
     if e[0] == "field":
-        return ("field", e[1], strip_sites(e[2]))
+        return ("field", e[1], strip_sites(e[2]), field_name(e))
     if e[0] in ("const",):
         return e
     return tuple(strip_sites(x) if isinstance(x, tuple) else x for x in e)
@@ -751,7 +796,7 @@ def render(e):
             return "<%s>" % (v[0],)
         return str(v).lower() if isinstance(v, bool) else str(v)
     if k == "field":
-        nm = e[3][0] if len(e) > 3 and e[3] and e[3][0] else str(e[1])
+        nm = field_name(e) or str(e[1])
         return "%s.%s" % (render(e[2]), nm)
     if k == "index":
         return "%s[%s]" % (render(e[1]), render(e[2]))
@@ -970,7 +1015,8 @@ class FactWalker:
         return self._kills[bb]
 
     def bool_assigns(self, bb):
-        """user bool variables assigned a constant in this block: {local: bool}"""
+        """user variables assigned a known constant in this block:
+        {local: bool}  or  {local: ('variant', name)} for Option/Result/enum aggregates"""
         if bb not in self._const_assign:
             out = {}
             for s in self.b.blocks[bb]["stmts"]:
@@ -982,6 +1028,15 @@ class FactWalker:
                         if c.get("k") == "val" and isinstance(c["v"], bool):
                             out[l] = c["v"]
                             continue
+                    if rv["k"] == "agg" and rv.get("agg") == "adt" and self.b.locals[l]["ty"].startswith(
+                            ("std::option::Option<", "std::result::Result<")):
+                        out[l] = ("variant", rv["variant"])
+                        continue
+                    if rv["k"] == "use" and ("move" in rv["op"] or "copy" in rv["op"]):
+                        src = rv["op"].get("move") or rv["op"].get("copy")
+                        if not src["p"] and src["l"] in out:
+                            out[l] = out[src["l"]]
+                            continue
                     out.pop(l, None)
             self._const_assign[bb] = out
         return self._const_assign[bb]
@@ -989,11 +1044,15 @@ class FactWalker:
     def apply_block(self, bb, facts):
         """facts: frozenset of (atom, value). returns facts after the block's statements."""
         k = self.kills(bb)
-        if not k:
+        is_call = self.b.term(bb)["k"] == "call"
+        if not k and not (is_call and facts):
             return facts
         keep = []
         for a, v in facts:
-            if locals_in(a) & k:
+            if k and locals_in(a) & k:
+                continue
+            if is_call and _mentions_site(a, bb):
+                # the call at this block runs again: what was known about its previous result is void
                 continue
             keep.append((a, v))
         ba = self.bool_assigns(bb)
@@ -1001,6 +1060,9 @@ class FactWalker:
             nm = self.b.names.get(l)
             if nm is not None:
                 atom = ("var", l, nm)
+                if isinstance(v, tuple):
+                    atom = ("discr", atom)
+                    v = v[1]
                 if self.relevant(atom):
                     keep.append((atom, v))
         return frozenset(keep)
@@ -1042,6 +1104,25 @@ class FactWalker:
         return explore(self.b, start, init, self.step)
 
 
+def _mentions_site(e, bb):
+    if not isinstance(e, tuple):
+        return False
+    if e and e[0] == "call" and len(e) > 3 and e[3] == bb:
+        return True
+    if e and e[0] == "const":
+        return False
+    for x in e[1:]:
+        if isinstance(x, tuple):
+            if x and isinstance(x[0], str):
+                if _mentions_site(x, bb):
+                    return True
+            else:
+                for y in x:
+                    if isinstance(y, tuple) and _mentions_site(y, bb):
+                        return True
+    return False
+
+
 def _consistent(v1, v2):
     if v1 == v2:
         return True
@@ -1059,8 +1140,21 @@ def _consistent(v1, v2):
 TOKEN_TY = "(std::string::String, std::string::String)"
 
 
-def field_bty(e):
+def field_name(e):
+    """declared name of a field node ('' for tuple fields); works on raw and stripped nodes"""
     if e[0] == "field" and len(e) > 3 and e[3]:
+        m = e[3]
+        return m if isinstance(m, str) else (m[0] or "")
+    return ""
+
+
+def fld(i, e, name=""):
+    """build a stripped field node (the shape strip_sites produces)"""
+    return ("field", i, e, name)
+
+
+def field_bty(e):
+    if e[0] == "field" and len(e) > 3 and e[3] and not isinstance(e[3], str):
         return e[3][1]
     return ""
 
@@ -1068,3 +1162,20 @@ def field_bty(e):
 def is_token_field(e, i):
     """e is field i of a value of type Token = (String, String)"""
     return e[0] == "field" and e[1] == i and field_bty(e) == TOKEN_TY
+
+
+def root_local_expr(e):
+    """local index at the root of a place-like expression (through fields, indexes, identity calls)"""
+    while True:
+        if e[0] in ("var", "param", "tmp"):
+            return e[1]
+        if e[0] in ("field", "downcast"):
+            e = e[2]
+        elif e[0] == "index":
+            e = e[1]
+        elif e[0] == "call" and e[2] and any(short(e[1]).endswith(x) for x in IDENTITY_CALLS):
+            e = e[2][0]
+        elif e[0] == "cast":
+            e = e[2]
+        else:
+            return None
